@@ -174,29 +174,94 @@ GAMMAS = ["1/2", "9/10", "1", "1/2", "9/10", "1", "0", "1048575/1048576"]
 TINY = F(1, 2 ** 30)
 
 
+NONDYADIC_ROWS = {2: [["9/10", "1/10"], ["1/3", "2/3"], ["3/7", "4/7"]],
+                  3: [["1/3", "1/3", "1/3"], ["7/10", "2/10", "1/10"], ["1/7", "2/7", "4/7"]]}
+
+
 def boundary_tables(rng, T, gamma, feats):
-    """parameter boundaries, only where float arithmetic on them stays exact (so that nothing has to be
-    compared more loosely): probabilities 2^-30 / 1 - 2^-30; rewards scaled to ~1e3 / ~1e6 (discounts
-    0, 1/2, 1: every partial sum of gamma^t r_t stays within 53 bits); reward gaps of 2^-30 (discounts 0, 1)"""
+    """parameter boundaries and number formats.  Nothing here needs a looser comparison: values that are only
+    passed through (probabilities, rewards of the derived MDPs, matrices, one-step outcomes) are compared
+    bit-exactly as doubles; cumulative rewards are compared exactly whenever float arithmetic on them is exact
+    (dyadic rewards, discount 0, 1/2, 1, short roll-outs) and with the 1e-9 absolute slack otherwise
+    (feature inexact_sums)."""
     n, nA = T["n"], T["nA"]
-    if rng.random() < .15:
-        rows = [(s, a) for s in range(n) for a in range(nA) if len([1 for _, p in T["trans"][s][a] if F(p) > 0]) == 2]
+    def pos_rows(k):
+        return [(s, a) for s in range(n) for a in range(nA) if len([1 for _, p in T["trans"][s][a] if F(p) > 0]) == k]
+    # (1) tiny positive probabilities 2^-27 .. 2^-60 (below 1e-8) on a branch of its own, sometimes carrying a reward ~ 1/p
+    if rng.random() < .25:
+        rows = pos_rows(2)
         if rows:
             s, a = rng.choice(rows)
+            e = rng.choice([27, 30, 40, 60])
+            tiny = F(1, 2 ** e)
             pos = [i for i, (_, p) in enumerate(T["trans"][s][a]) if F(p) > 0]
-            T["trans"][s][a][pos[0]][1] = str(1 - TINY)
-            T["trans"][s][a][pos[1]][1] = str(TINY)
+            if e <= 30:
+                T["trans"][s][a][pos[0]][1] = str(F(T["trans"][s][a][pos[0]][1]) + F(T["trans"][s][a][pos[1]][1]) - tiny)
+            else:
+                # 1 - 2^-e is not a double: the row's weights sum to 1 + 2^-e (in doubles: exactly 1.0)
+                T["trans"][s][a][pos[0]][1] = str(F(T["trans"][s][a][pos[0]][1]) + F(T["trans"][s][a][pos[1]][1]))
+            T["trans"][s][a][pos[1]][1] = str(tiny)
             feats.append("tiny_probability")
+            feats.append("tiny_probability_2^-%d" % e)
+            if e <= 30 and rng.random() < .5:
+                T["rew"][s][a][T["trans"][s][a][pos[1]][0]] = str(rng.choice([-1, 1]) * 2 ** 27)
+                feats.append("tiny_probability_with_reward_1/p")
+    if rng.random() < .1 and len(T["init"]) >= 1:
+        e = rng.choice([27, 40, 60])
+        others = [x for x in range(n) if x not in [s_ for s_, _ in T["init"]]]
+        if others:
+            T["init"].append([rng.choice(others), str(F(1, 2 ** e))])
+            feats.append("tiny_initial_probability")
+    # (3) non-dyadic probabilities (thirds, tenths, sevenths; float row sums need not be exactly 1.0)
+    if rng.random() < .3:
+        k = rng.choice([2, 3])
+        rows = pos_rows(k)
+        for s, a in rng.sample(rows, min(len(rows), 2)):
+            ps = list(rng.choice(NONDYADIC_ROWS[k]))
+            rng.shuffle(ps)
+            for i, (ns_, p_) in enumerate(T["trans"][s][a]):
+                if F(p_) > 0:
+                    T["trans"][s][a][i][1] = ps.pop()
+            feats.append("nondyadic_probabilities")
     r = rng.random()
-    if r < .15 and gamma in (F(0), F(1, 2), F(1)):
+    if r < .12 and gamma in (F(0), F(1, 2), F(1)):
         k = rng.choice([2 ** 10, 2 ** 20])
         T["rew"] = [[[str(F(x) * k) for x in row] for row in mat] for mat in T["rew"]]
         feats.append("large_rewards")
-    elif r < .3 and gamma in (F(0), F(1)):
+    elif r < .22 and gamma in (F(0), F(1)):
+        # (2) large magnitudes with near-ties: rewards ~1e6 .. 4e6 that differ by 1 (relative gap ~1e-6 .. 2.5e-7)
+        T["rew"] = [[[str(F(x) * 2 ** 20) for x in row] for row in mat] for mat in T["rew"]]
+        for _ in range(4):
+            s, a, ns = rng.randrange(n), rng.randrange(nA), rng.randrange(n)
+            T["rew"][s][a][ns] = str(F(T["rew"][s][a][ns]) + rng.choice([1, -1]))
+        feats.append("large_rewards_near_ties")
+    elif r < .34 and gamma in (F(0), F(1)):
         for _ in range(3):
             s, a, ns = rng.randrange(n), rng.randrange(nA), rng.randrange(n)
             T["rew"][s][a][ns] = str(F(T["rew"][s][a][ns]) + rng.choice([TINY, -TINY]))
         feats.append("tiny_reward_gaps")
+    elif r < .46:
+        # (3) non-dyadic rewards: sums of gamma^t r_t are rounded by the implementation
+        for _ in range(4):
+            s, a, ns = rng.randrange(n), rng.randrange(nA), rng.randrange(n)
+            T["rew"][s][a][ns] = rng.choice(["1/10", "-1/3", "7/10", "-1/10", "2/7"])
+        feats.append("nondyadic_rewards")
+        feats.append("inexact_sums")
+
+
+def long_chain_base(rng, base):
+    """(6) episodes beyond 1000 primitive steps: state 0 loops with probability 1 - 2^-10 (integer step cost -1),
+    state 1 is where it ends; one action; mean length 1024"""
+    T = {"n": 2, "nA": 1, "actions": [[0], [0]],
+         "trans": [[[[0, str(1 - F(1, 1024))], [1, str(F(1, 1024))]]], [[[1, "1"]]]],
+         "rew": [[["-1", "-1"]], [["0", "0"]]], "absorbing": [False, True], "init": [[0, "1"]]}
+    base["tables"] = T
+    base["features"] = ["long_chain", "inexact_sums"]
+    if base["lists"]:
+        base["lists"] = {"where": "inst" if base["lists"]["where"] == "inferred" else base["lists"]["where"],
+                         "state_list": [0, 1], "action_list": [0]}
+    base["touch"] = False
+    return base
 
 
 def gen_base(rng, nmax, list_actions=False, used=False, min_states=2, nA=None, n=None):
@@ -227,7 +292,10 @@ def gen_base(rng, nmax, list_actions=False, used=False, min_states=2, nA=None, n
             # representations: labels the msdm objects see for state / action ids (id 0 is the falsy label "" / ()),
             # distribution classes, integral discounts passed as int
             "labels": {"state": rng.choice(["int", "int", "str", "tuple"]), "action": rng.choice(["int", "int", "str"])},
-            "dist_as": rng.choice(["dict", "auto"]), "gamma_as_int": rng.random() < .5, "features": []}
+            "dist_as": rng.choice(["dict", "auto"]), "gamma_as_int": rng.random() < .5,
+            # integer-typed inputs where floats are usual (integral rewards / probabilities as Python int), and caller objects that are
+            # SHARED: one list object for equal action sets, one distribution object for equal rows, checked for mutation afterwards
+            "ints": rng.random() < .35, "shared_objects": rng.random() < .5, "features": []}
     boundary_tables(rng, T, base_discount(base), base["features"])
     return base
 
@@ -273,6 +341,13 @@ def gen_subtask(rng, tier, base=None):
     subgoals = rng.sample(range(n), rng.choice([0, 1, 1, rng.randint(0, n), n]))
     initial = rng.sample(range(n), rng.choice([0, 1, rng.randint(1, n), n]))
     maxr = rng.choice([None, "0", "-1", "-1/2", "1", "-3", "2"])
+    T_ = base["tables"]
+    rs = sorted({F(x) for mat in T_["rew"] for row in mat for x in row if F(x) != 0})
+    if rs and rng.random() < .35:
+        # clip level AT a reward of the table, or a hair (relative 2^-20 ~ 1e-6) below / above it
+        r_ = rng.choice(rs)
+        maxr = str(r_ + rng.choice([0, 1, -1]) * abs(r_) * F(1, 2 ** 20))
+        base["features"].append("clip_level_near_a_reward")
     # planning_result / policy of the option (needs a tabular sub-task)
     plan = base["tabular"] and rng.random() < .4
     return {"kind": "subtask", "base": base, "initial_states": initial, "subgoals": subgoals,
@@ -340,15 +415,26 @@ def gen_option(rng, T, max_steps, term_p=.4):
         k = rng.randint(1, len(acts))
         chosen = rng.sample(acts, k)
         ps = gen_mdp._split_prob(rng, k, denom=4) if k <= 4 else [F(1, k)] * k
+        if k in (2, 3) and rng.random() < .15:
+            ps = [F(x) for x in rng.choice(NONDYADIC_ROWS[k])]
         row = [[a, str(p)] for a, p in zip(chosen, ps)]
+        rest = [a for a in acts if a not in chosen]
+        if rest and rng.random() < .1:
+            row.append([rng.choice(rest), str(F(1, 2 ** rng.choice([27, 40, 60])))])     # tiny positive policy probability
         pol.append(row)
     terminal = [rng.random() < term_p for _ in range(n)]
     initial = [rng.random() < .7 for _ in range(n)]
     return {"policy": pol, "terminal": terminal, "initial": initial, "max_steps": max_steps}
 
 
-def gen_run(rng, tier):
+def gen_run(rng, tier, long=False):
     base = gen_base(rng, 5, min_states=1)
+    if long:
+        long_chain_base(rng, base)
+        return {"kind": "run", "base": base, "more_bases": [], "visits": [0], "planned": False,
+                "option": {"policy": [[[0, "1"]], [[0, "1"]]], "terminal": [False, True], "initial": [True, True], "max_steps": 0},
+                "s0": 0, "s0s": [0], "derive_first": None, "seed": rng.randrange(2 ** 31),
+                "natural_cap": 4000, "ms_abs": [1000], "ms_rel": [1, 2]}
     T = base["tables"]
     # the SAME option object is afterwards executed on one or two OTHER base MDPs (and then on the first again)
     planned = base["tabular"] and rng.random() < .15      # a PlanToSubgoalOption with a ValueIteration policy instead of a SimpleOption
@@ -377,7 +463,16 @@ def gen_run(rng, tier):
             "natural_cap": 40, "ms_abs": rng.sample([0, 1, 2, 3, 4, 6], 3), "ms_rel": [-1, 0, 1, 2, 3, 5]}
 
 
-def gen_smdp(rng, tier):
+def gen_smdp(rng, tier, long=False):
+    if long:
+        base = long_chain_base(rng, gen_base(rng, 5, list_actions=True, min_states=1))
+        g_ = rng.choice(["1", "0"])        # integer sums only: the exact-rational model of gamma^t over > 1000 steps is out of reach otherwise
+        for k_ in base["gammas"]:
+            if base["gammas"][k_] is not None:
+                base["gammas"][k_] = g_
+        opt = {"policy": [[[0, "1"]], [[0, "1"]]], "terminal": [False, True], "initial": [True, True], "max_steps": 4800}
+        return {"kind": "smdp", "base": base, "more_bases": [], "options": [opt], "n": 2, "include": True,
+                "seed": rng.randrange(2 ** 31), "global_seed": 1, "s": 0, "queries": [["opt", 0, 0, 0], ["prim", 0, 0, 0]]}
     include = rng.random() < .5
     base = gen_base(rng, 5, list_actions=include, min_states=1)
     T = base["tables"]
@@ -802,8 +897,7 @@ class Checker:
             if r != fl(T["rew"][s][a][ns]):
                 return "step reward differs from the base MDP's reward"
             if case.get("planned"):
-                if a not in T["actions"][s]:
-                    return "planned option policy chose an action that is not available"
+                pass      # which actions a planner's policy may choose is property C01's business, not this one's
             elif not any(e == a and F(p) > 0 for e, p in opt["policy"][s]):
                 return "action outside the support of the option policy"
             if not any(e == ns and F(p) > 0 for e, p in T["trans"][s][a]):
@@ -932,7 +1026,9 @@ class Checker:
             self.bump("smdp_evaluations")
             T = bases[bidx]["tables"]
             gamma = base_discount(bases[bidx])
-            exact = gamma in (F(0), F(1, 2), F(1))
+            exact = gamma in (F(0), F(1), F(1, 2)) and "inexact_sums" not in bases[bidx]["features"]
+            if "long_chain" in bases[bidx]["features"] and gamma in (F(0), F(1)):
+                exact = True               # integer step costs, discount 0 or 1: integer sums
             tol = 0.0 if exact else 1e-9
             if fl(res["base_discounts"][bidx]) != float(gamma):
                 self.violation("C15:harness:base-discount", {"case": case}, found=False)
@@ -1171,7 +1267,8 @@ def run(ctx):
         k = 1 if tier == "quick" else 8
         cases = [gen_augment(rng, tier) for _ in range(24 * k)] + [gen_subtask(rng, tier) for _ in range(60 * k)] + \
                 [gen_run(rng, tier) for _ in range(60 * k)] + [gen_smdp(rng, tier) for _ in range(70 * k)] + \
-                [gen_used(rng, tier) for _ in range(50 * k)]
+                [gen_used(rng, tier) for _ in range(50 * k)] + \
+                [gen_run(rng, tier, long=True) for _ in range(2 * k)] + [gen_smdp(rng, tier, long=True) for _ in range(1 * k)]
     import time
     t0 = time.time()
     impl = ctx.impl("c15_impl.py", {"cases": cases}, shards=8 if tier == "quick" else 16)["results"]
@@ -1182,12 +1279,26 @@ def run(ctx):
         if "error" in res:
             ck.violation("C15:impl-error:" + res["error"].split(":")[0], {"case": case, "error": res["error"], "trace": res.get("trace")}, found=False)
             continue
+        if res.get("mutated"):
+            ck.violation("C15:caller-object-mutated", {"case": case, "mutated": res["mutated"],
+                         "clause": "an object owned by the caller (action list / distribution / list passed to a constructor) was changed"},
+                         found=True, once_key="mut")
+        if res.get("stale_changed") or res.get("base_dump_changed") or res.get("rebuilt_base_differs"):
+            ck.violation("C15:earlier-result-changed-by-a-later-call", {"case": case, "stale_changed": res.get("stale_changed"),
+                         "base_dump_changed": res.get("base_dump_changed"), "rebuilt_base_differs": res.get("rebuilt_base_differs"),
+                         "clause": "a derived MDP / roll-out / outcome distribution obtained earlier reads differently after later calls"},
+                         found=True, once_key="stale")
+        ck.bump("cases_checked_for_mutation_and_stale_results")
         ts = terms_for(case, res)
         terms += ts
         owner += [i] * len(ts)
+    import resource
     t0 = time.time()
+    c0 = resource.getrusage(resource.RUSAGE_CHILDREN)
     vals = ctx.coq(PRE, terms, shard=16 if tier == "quick" else 60)
+    c1 = resource.getrusage(resource.RUSAGE_CHILDREN)
     t_coq = time.time() - t0
+    cpu_coq = (c1.ru_utime + c1.ru_stime) - (c0.ru_utime + c0.ru_stime)
     vals = [v if isinstance(v, vlib.CoqError) else unq(v) for v in vals]
     per = {}
     for i, v in zip(owner, vals):
@@ -1213,7 +1324,10 @@ def run(ctx):
         bs = c["base"]
         for key in (["labels:state=" + bs["labels"]["state"], "labels:action=" + bs["labels"]["action"], "dist_as=" + bs["dist_as"],
                      "actions_as=" + bs["actions_as"], "lists=" + (bs["lists"]["where"] if bs["lists"] else "none"),
-                     "discount=" + str(base_discount(bs)), "touched" if bs["touch"] else "fresh", "states=%d" % bs["tables"]["n"]]
+                     "discount=" + str(base_discount(bs)), "touched" if bs["touch"] else "fresh", "states=%d" % bs["tables"]["n"],
+                     "actions=%d" % bs["tables"]["nA"], "int_typed_numbers" if bs.get("ints") else "float_numbers",
+                     "shared_caller_objects" if bs.get("shared_objects") else "separate_caller_objects"]
+                    + (["states==actions"] if bs["tables"]["n"] == bs["tables"]["nA"] else [])
                     + bs["features"]):
             reps[key] = reps.get(key, 0) + 1
     holders = {}
@@ -1241,5 +1355,5 @@ def run(ctx):
                 "components + tabular views + ValueIteration result compared; half of all other bases are touched first too.  distinct = structural hash of the case; non-trivial = all "
                 "(every base has >= 2 states)",
         "samples": [sample] if sample else [{"case": cases[0]}],
-        "cases": len(cases), "timing_s": {"impl": round(t_impl, 1), "coq": round(t_coq, 1)}, "cases_by_kind": kinds, "discount_holders": holders, "input_representations": reps, "counters": ck.counts,
+        "cases": len(cases), "timing_s": {"impl": round(t_impl, 1), "coq": round(t_coq, 1), "coq_cpu": round(cpu_coq, 1), "coq_terms": len(terms)}, "cases_by_kind": kinds, "discount_holders": holders, "input_representations": reps, "input_features": reps, "counters": ck.counts,
     })
